@@ -65,6 +65,7 @@ type Contract struct {
 	Wiring        bool                       // abstract mode, no memory-safety obligations: only call-site/ensures/invariant obligations
 	CallSites     []CallSiteSpec
 	Exits         []ExitSpec
+	StoreSites    []StoreSpec
 	NoWrap        bool
 	NoWrapAssumed bool
 	RealDiv       bool
@@ -106,6 +107,12 @@ func (c *Contract) resultNames(fn *ssa.Function) []string {
 // ExitSpec: an assertion at the Ord-th return statement (0 = every return).
 type ExitSpec struct {
 	Ord    int
+	Clause Clause
+}
+
+// StoreSpec: an assertion right after the assignment whose text (lhs and operator) is Text.
+type StoreSpec struct {
+	Text   string
 	Clause Clause
 }
 
@@ -395,6 +402,18 @@ func (c *Ctx) parseContracts(p *packages.Package) error {
 						}
 						cur.Exits = append(cur.Exits, ExitSpec{Ord: k, Clause: cl})
 						lastClause = &cur.Exits[len(cur.Exits)-1].Clause
+					case "store":
+						// store <assignment text> requires [label:] expr : holds right after that assignment
+						k := strings.Index(rest, " requires ")
+						if k < 0 {
+							return fmt.Errorf("%s: bad store clause", where)
+						}
+						cl, err := parseClause(strings.TrimSpace(rest[k+len(" requires "):]))
+						if err != nil {
+							return fmt.Errorf("%s: %v", where, err)
+						}
+						cur.StoreSites = append(cur.StoreSites, StoreSpec{Text: compact(strings.TrimSpace(rest[:k])), Clause: cl})
+						lastClause = &cur.StoreSites[len(cur.StoreSites)-1].Clause
 					case "trusted":
 						cur.Trusted = true
 					case "inline":
